@@ -893,6 +893,15 @@ class HRef(BaseMultipartText):
         reprparts = ', '.join(repr(part) for part in self.parts)
         return 'HRef({}, {})'.format(str_repr(self.url), reprparts)
 
+    @classmethod
+    def _external(cls, url, *args):
+        return cls(url, *args, external=True)
+
+    def _typeinfo(self):
+        # texts derived from an external link (slices, case changes, merged
+        # neighbours) are built through _external() and so stay external
+        return (self._external if self.external else type(self)), self.info
+
     def render(self, backend):
         text = super(HRef, self).render(backend)
         return backend.format_href(self.url, text, self.external)
